@@ -5,7 +5,9 @@ these lines give the search a concrete failing input for the exits that need con
  * mpn_gcdext (gcdext.c:320-326): the FIRST mpn_hgcd makes no progress and one subtract+divide step ends with n == 0 —
    operands of equal length whose high halves agree and whose difference divides them (a = m ± 1 modulo m; b = d·k, a = b + d);
  * the same sizes through mpz_invert / mpz_gcdext with NULL t.
-The recording allocator of the harness reports `!leak` after each stateless op."""
+The recording allocator of the harness reports `!leak` after each stateless op.
+Also: gmp_asprintf outputs whose length is EXACTLY the capacity of the growing buffer (256 initially, GMP_ASPRINTF_T_NEED grows when
+`alloc <= newsize`): the terminating NUL needs the `=` (seed C04_d_1 drops it: one byte behind the block, seen by the red zones)."""
 from genlib import *
 
 def _big(rng, n, kind):
@@ -24,3 +26,6 @@ def gen_ops(rng, tier, ctx=None):
         yield "mpz_gcdext 0 %s %s" % (hx(b + d), hx(b))
         yield "mpz_gcdext_nt 0 %s %s" % (hx(b), hx(b + d))
         yield "mpz_gcdext 0 %s %s" % (hx(-(b + d)), hx(b))
+    for w in (255, 256, 257, 511, 512, 513):
+        yield "gmp_asprintf s252a5a64 s695a %x 7" % w                     # "%*Zd", width w
+        yield "gmp_asprintf s252a5a64 s695a %x %s" % (3, hx(10 ** (w - 1)))   # a w-digit number
